@@ -311,7 +311,7 @@ def _save_bs(basis_dir, n, degree, bs, verbose=False):
     file_name = 'daun_basis_{}_{}.npy'.format(n, degree)
     if verbose:
         print('Saving basis set to disk as', file_name)
-    np.save(os.path.join(basis_dir, file_name), bs)
+    abel.transform._save_basis(os.path.join(basis_dir, file_name), bs)
 
 
 def _bs_daun(n, degree=0, verbose=False):
